@@ -258,8 +258,31 @@ class Ctx:
         out = []
         for (t, pol) in cfg.guards_of(self.node(fn, astnode)):
             if t.kind == 'test':
-                out.append((ex.term(t.ast, t), pol, t.ast))
+                term = ex.term(t.ast, t)
+                for (t2, p2) in guard_equivalents(term, pol):
+                    out.append((t2, p2, t.ast))
         return out
+
+    def guard_groups(self, fn, astnode):
+        """One list of equivalent (term, polarity) statements per dominating test."""
+        cfg = cfg_of(fn)
+        ex = self.ex(fn)
+        out = []
+        for (t, pol) in cfg.guards_of(self.node(fn, astnode)):
+            if t.kind == 'test':
+                out.append(guard_equivalents(ex.term(t.ast, t), pol))
+        return out
+
+    def only_guarded_by(self, fn, astnode, pats, at_most=None):
+        """Every test that dominates astnode states (positively) one of `pats`."""
+        groups = self.guard_groups(fn, astnode)
+        ps = [pattern(p) for p in pats]
+        for g in groups:
+            if not any(pol and any(match(t, p) is not None for p in ps) for (t, pol) in g):
+                return False
+        if at_most is not None and len(groups) > at_most:
+            return False
+        return True
 
     # -- discovery through the call graph -----------------------------------
     def reachable(self, entries, depth=None, may=True):
@@ -298,6 +321,51 @@ class Ctx:
 
     def has_call(self, fn, pat):
         return bool(self.calls(fn, pat))
+
+
+_NEG_CMP = {'is': 'is not', 'is not': 'is', '==': '!=', '!=': '==', 'in': 'not in',
+            'not in': 'in'}
+
+
+def negate_term(t):
+    """Syntactic negation of a test term (one step), or None."""
+    if t[0] == 'unary' and t[1] == 'not':
+        return t[2]
+    if t[0] == 'cmp':
+        if t[1] in _NEG_CMP:
+            return ('cmp', _NEG_CMP[t[1]], t[2], t[3])
+        if t[1] == '<':
+            return ('cmp', '<=', t[3], t[2])
+        if t[1] == '<=':
+            return ('cmp', '<', t[3], t[2])
+    if t[0] == 'bool':
+        parts = [negate_term(x) for x in t[2]]
+        if all(p is not None for p in parts):
+            return ('bool', 'or' if t[1] == 'and' else 'and', tuple(parts))
+    return None
+
+
+def guard_equivalents(t, pol):
+    """(term, polarity) pairs that state the same fact: `not c` true == `c` false, etc."""
+    out = [(t, pol)]
+    seen = {(t, pol)}
+    todo = [(t, pol)]
+    while todo:
+        (x, p) = todo.pop()
+        cands = []
+        # only forms in which every atom keeps its own polarity visible: flipped comparisons,
+        # De Morgan, and unwrapping of an explicit `not` (never wrapping: `contains` on a
+        # wrapped term would see the atom under the wrong polarity)
+        n = negate_term(x)
+        if n is not None:
+            cands.append((n, not p))
+        for c in cands:
+            if c not in seen and len(seen) < 12:
+                seen.add(c)
+                out.append(c)
+                if not (c[0][0] == 'unary' and c[0][2][0] == 'unary'):
+                    todo.append(c)
+    return out
 
 
 def _cname(construct):
